@@ -34,6 +34,10 @@ class Interp:
         outer = self
 
         class Ev(Evaluator):
+            def sub_evaluator(self, g, env, arrays):
+                sub = Ev(self.prog, g, env, arrays, self.depth + 1)
+                return sub
+
             def ev(self, x):
                 if x is not None:
                     b = outer.bind(x)
